@@ -131,7 +131,7 @@ Lemma R_el_unnamed c node next st : keeps c next -> R c st -> R c (el_unnamed c 
 Proof.
   intros Hn H. unfold el_unnamed. destruct (el_snippet c node next st) as [st'|] eqn:E.
   - eapply R_el_snippet; eassumption.
-  - destruct (an_value node) as [[|v0 value]|]; try exact H. apply Hn, R_push_tokens, H.
+  - apply Hn. destruct (an_value node) as [[|v0 value]|]; try exact H. apply R_push_tokens, H.
 Qed.
 
 Lemma R_el_body c node next st : keeps c next -> R c st -> R c (el_body c node next st).
